@@ -40,6 +40,15 @@ def leaf_hash(kind, v):
                 layer.append(zero_hash(d))
             layer = [h2(layer[i], layer[i + 1]) for i in range(0, len(layer), 2)] or [zero_hash(d + 1)]
         return h2(layer[0], (len(v) // 8).to_bytes(32, 'little'))
+    if kind == 'nest2':
+        items = []
+        if v:
+            first = int.from_bytes(v[0:4], 'little')
+            offs = [int.from_bytes(v[4 * i:4 * i + 4], 'little') for i in range(first // 4)] + [len(v)]
+            items = [v[offs[i]:offs[i + 1]] for i in range(len(offs) - 1)]
+        layer = [leaf_hash('var', it) for it in items] + [ZERO] * (4 - len(items))
+        root = h2(h2(layer[0], layer[1]), h2(layer[2], layer[3]))
+        return h2(root, len(items).to_bytes(32, 'little'))
     raise ValueError(kind)
 
 
